@@ -268,7 +268,9 @@ func (ex *Exec) step(fr *frame, st *State, reach *Term, instr ssa.Instruction, e
 		ex.rangeNext(fr, st, reach, in)
 	case *ssa.MakeChan:
 		// a channel is an opaque, freshly allocated, non-nil reference (no buffer, no contents)
-		fr.env[in] = ex.freshRef(st, reach, "chan")
+		r := ex.freshRef(st, reach, "chan")
+		ex.setComp(st, chanClosedComp, Store(ex.comp(st, chanClosedComp, aliveSort), r, TFalse))
+		fr.env[in] = r
 	case *ssa.Go:
 		// Two schedules of the spawned goroutine are followed: it has run to completion at the spawn point, or it
 		// has not run at all yet (and does not until the spawning function returns). Other interleavings, and
@@ -294,7 +296,13 @@ func (ex *Exec) step(fr *frame, st *State, reach *Term, instr ssa.Instruction, e
 		}, 2)
 		*st = *merged
 		reach = vc.Def("reach.go", Or(nr, skip))
-	case *ssa.Send, *ssa.Select:
+	case *ssa.Send:
+		// a send has no effect in the sequential model (channels carry no contents; blocking is not modelled);
+		// sending on a closed channel panics
+		vc.note("channel send: no effect in the model (blocking and delivery are not modelled); only 'not closed' is checked")
+		ch := ex.term(fr, in.Chan)
+		ex.safeOblige(fr, reach, Or(Eq(ch, IntLit(0)), Not(Select(ex.comp(st, chanClosedComp, aliveSort), ch))), "send-closed", in)
+	case *ssa.Select:
 		ex.unsupportedAt(in, fmt.Sprintf("concurrency instruction %T (outside the verified subset)", in))
 	default:
 		ex.unsupportedAt(in, fmt.Sprintf("instruction %T", in))
@@ -334,6 +342,9 @@ func (ex *Exec) strLen(s *Term) *Term {
 }
 
 // safety obligations -------------------------------------------------------------------
+
+// chanClosedComp: per channel reference, whether close() has been called on it.
+const chanClosedComp = "chan.closed"
 
 func (ex *Exec) safeOblige(fr *frame, reach *Term, goal *Term, kind string, instr ssa.Instruction) {
 	key := relName(ex.top) + "/" + kind
